@@ -5,13 +5,15 @@
 
 package badger
 
+import "github.com/dgraph-io/badger/v4/y"
+
 // lemmaHeaderRoundTrip: C20/C16, "the varint entry header round-trips for all field values"
 // and fits in maxHeaderSize bytes.
 //
-//@ func lemmaHeaderRoundTrip
-//@   props C20 C16
-//@   ensures[same] result0 == h
-//@   ensures[length] result1 == result2 && result1 <= maxHeaderSize
+// @ func lemmaHeaderRoundTrip
+// @   props C20 C16
+// @   ensures[same] result0 == h
+// @   ensures[length] result1 == result2 && result1 <= maxHeaderSize
 func lemmaHeaderRoundTrip(h header) (header, int, int) {
 	var buf [maxHeaderSize]byte
 	n := h.Encode(buf[:])
@@ -23,13 +25,32 @@ func lemmaHeaderRoundTrip(h header) (header, int, int) {
 // lemmaThresholdStable: C06. If the first call (made by valueLog.write) says "inline", so
 // does the second (made by writeToLSM), whatever threshold is passed the second time.
 //
-//@ func lemmaThresholdStable
-//@   props C06
-//@   requires e != nil
-//@   ensures[stable] result0 ==> result1
-//@   assigns e.valThreshold
+// @ func lemmaThresholdStable
+// @   props C06
+// @   requires e != nil
+// @   ensures[stable] result0 ==> result1
+// @   assigns e.valThreshold
 func lemmaThresholdStable(e *Entry, t1, t2 int64) (bool, bool) {
 	a := e.skipVlogAndSetThreshold(t1)
 	b := e.skipVlogAndSetThreshold(t2)
 	return a, b
+}
+
+// lemmaEntryAccounted: C28. What checkSize adds to the transaction's size for an accepted
+// entry covers what the writer will account for it once its key carries the 8-byte version.
+//
+// @ func lemmaEntryAccounted
+// @   props C28
+// @   requires txn != nil && e != nil && txn.db != nil && txn.db.threshold != nil
+// @   ensures[covers] result2 == nil ==> result0 >= result1
+// @   assigns txn.count, txn.size, e.valThreshold, e.Key
+func lemmaEntryAccounted(txn *Txn, e *Entry, ts uint64) (int64, int64, error) {
+	before := txn.size
+	if err := txn.checkSize(e); err != nil {
+		return 0, 0, err
+	}
+	accounted := txn.size - before
+	e.Key = y.KeyWithTs(e.Key, ts)
+	actual := e.estimateSizeAndSetThreshold(txn.db.valueThreshold())
+	return accounted, actual, nil
 }
